@@ -42,3 +42,42 @@ fn c01_q_layer_lookup_and_iteration() {
     core::mem::forget(f);
     core::mem::forget(query);
 }
+
+/// three tags with one-byte symbolic names: tag_by_name returns the lowest-numbered match, get_tag is None out of
+/// range, tag(i) is the i-th tag, num_tags is 3
+#[kani::proof]
+#[kani::unwind(6)]
+#[kani::stub(alloc::fmt::format, crate::vklib::empty_format)]
+#[kani::stub(std::hash::RandomState::new, crate::vklib::fixed_random_state)]
+fn c01_q_tag_lookup() {
+    let n: [u8; 3] = kani::any();
+    kani::assume(n[0] < 0x80 && n[1] < 0x80 && n[2] < 0x80);
+    let q: u8 = kani::any();
+    kani::assume(q < 0x80);
+    let fr: [u16; 3] = kani::any();
+    let tags = vec![
+        crate::tags::vkl::mk_tag(name1(n[0]), fr[0], 0),
+        crate::tags::vkl::mk_tag(name1(n[1]), fr[1], 1),
+        crate::tags::vkl::mk_tag(name1(n[2]), fr[2], 2),
+    ];
+    let ld = LayersData::from_vec(Vec::new()).unwrap();
+    let f = mk_file(1, 1, 1, PixelFormat::Rgba, ld, CelsData::new(1), TilesetsById::new(), tags);
+    assert!(f.num_tags() == 3);
+    let query = name1(q);
+    let exp: Option<u32> = if n[0] == q { Some(0) } else if n[1] == q { Some(1) } else if n[2] == q { Some(2) } else { None };
+    match f.tag_by_name(&query) {
+        None => assert!(exp.is_none(), "an existing tag name is found"),
+        Some(t) => assert!(exp == Some(t.to_frame()), "lowest-numbered tag with that name (to_frame marks the index)"),
+    }
+    let i: u32 = kani::any();
+    match f.get_tag(i) {
+        None => assert!(i >= 3, "in-range ids resolve"),
+        Some(t) => assert!(i < 3 && t.to_frame() == i && t.from_frame() == fr[i as usize] as u32, "get_tag(i) is the i-th tag"),
+    }
+    kani::assume(i < 3);
+    assert!(f.tag(i).to_frame() == i);
+    kani::cover!(n[0] != q && n[1] == q && n[2] == q);
+    kani::cover!(exp.is_none());
+    core::mem::forget(f);
+    core::mem::forget(query);
+}
